@@ -18,7 +18,9 @@
 (*   ctx         - the fetch_active_workspace context the user is in (shared/utils.py:95-123):  *)
 (*                 "none" | "keep" (workspace yielded as it was) | "close" (re-opened by the    *)
 (*                 helper, closed again when the with-block is left)                            *)
-(*   last        - observation of the last action (never part of the VIEW)                      *)
+(*   last        - observation of the last action (never part of the VIEW): act, args, out and  *)
+(*                 wopen = "a writable handle on the source file was opened during the step"    *)
+(*                 (the harness sees every h5py.File that is opened, also the transient ones)   *)
 (*                                                                                              *)
 (* The alphabet is abstract: an operation class is "<holder kind>.<verb>" (holder kinds ws,     *)
 (* group, object, data, pgroup, type; verbs get, set, create, remove, copy, save, call).  The   *)
@@ -44,11 +46,12 @@ Modes == {"closed", "r", "r+"}
 Outs  == {"ok", "refused"}
 Pristine == fileVersion = 0
 Exact == Pristine /\ live = "sync"       \* the state in which the binding was classified
-Obs(act, args, out) == last' = [act |-> act, args |-> args, out |-> out]
+ObsW(act, args, out, w) == last' = [act |-> act, args |-> args, out |-> out, wopen |-> w]
+Obs(act, args, out) == ObsW(act, args, out, FALSE)
 
 Init ==
     /\ mode = "closed" /\ fileVersion = 0 /\ live = "sync" /\ ctx = "none"
-    /\ last = [act |-> "Init", args |-> [x |-> 0], out |-> "ok"]
+    /\ last = [act |-> "Init", args |-> [x |-> 0], out |-> "ok", wopen |-> FALSE]
 
 \* ------------------------------------------------------------------ open / close
 \* Workspace(path, mode=m) / Workspace.open(mode=m) (workspace.py:1183-1215): the tree is re-loaded
@@ -57,7 +60,7 @@ Open(m) ==
     /\ mode = "closed" /\ ctx = "none" /\ m \in {"r", "r+"}
     /\ mode' = m /\ live' = "sync"
     /\ UNCHANGED <<fileVersion, ctx>>
-    /\ Obs("Open", [m |-> m], "ok")
+    /\ ObsW("Open", [m |-> m], "ok", m = "r+")
 
 \* Workspace.open(mode=m) on a workspace that is already open (workspace.py:1189-1191): warns and
 \* returns self - in particular open("r+") never upgrades a read-only handle.
@@ -150,13 +153,11 @@ Probe(op) ==
 \* path2workspace ui_json.utils.path2workspace(path)            (ui_json/utils.py:280-285)
 \* monitored_copy monitored_directory_copy(dir, entity of the workspace) (ui_json/utils.py:294-321): reads inside
 \*                fetch_active_workspace(entity.workspace, mode="r"), writes a NEW file
-\* All of them leave the source file and the mode of the user's handle unchanged; the handle a helper opens
-\* itself is never writable (hmode).
-HelperMode(h) == IF "HelperOpensWritable" \in Deviations THEN "r+"
-                 ELSE IF h \in {"monitored_copy", "input_file_ws"} THEN "none" ELSE "closed"
+\* All of them leave the source file and the mode of the user's handle unchanged, and no handle they open on the
+\* source file - not even a transient one - is writable (wopen).
 Helper(h) ==
     /\ h \in Helpers /\ mode \in {"closed", "r"}
-    /\ \E out \in Outs : last' = [act |-> "Helper", args |-> [h |-> h, hmode |-> HelperMode(h)], out |-> out]
+    /\ \E out \in Outs : ObsW("Helper", [h |-> h], out, "HelperOpensWritable" \in Deviations)
     /\ IF "HelperUpgrades" \in Deviations /\ mode = "r" THEN mode' = "r+" ELSE mode' = mode
     /\ UNCHANGED <<fileVersion, live, ctx>>
 
@@ -173,7 +174,7 @@ FetchEnter(m) ==
        ELSE /\ ctx' = "close" /\ mode' = m /\ live' = "sync"
             /\ IF mode = "closed" THEN fileVersion' = fileVersion
                ELSE Released(fileVersion')  \* the open handle (necessarily "r") is closed first: never writes
-    /\ Obs("FetchEnter", [m |-> m], "ok")
+    /\ ObsW("FetchEnter", [m |-> m], "ok", ~Matches(m) /\ m = "r+")
 \* leaving the with-block: a workspace the helper opened is closed, a workspace yielded as it was is left alone
 FetchExit ==
     /\ ctx # "none"
@@ -200,7 +201,7 @@ DepthBound == TLCGet("level") <= MaxDepth
 TypeOK ==
     /\ mode \in Modes /\ fileVersion \in 0..MaxVersion /\ live \in {"sync", "any"}
     /\ ctx \in {"none", "keep", "close"}
-    /\ last.out \in Outs
+    /\ last.out \in Outs /\ last.wopen \in BOOLEAN
 
 \* the explicit request for a writable handle
 Explicit(l) == l.act = "FetchEnter" /\ l.args.m = "r+"
@@ -220,10 +221,13 @@ ReadsWork == [][(last'.act = "Read" /\ mode = "r" /\ Exact) => last'.out = "ok"]
 \* helpers leave the source file and the user's handle alone and never hold a writable handle themselves
 HelpersPreserveSource ==
     [][last'.act = "Helper" => /\ fileVersion' = fileVersion /\ mode' = mode
-                               /\ last'.args.hmode # "r+"]_vars
+                               /\ ~last'.wopen]_vars
 \* a handle becomes writable only by Open("r+") from closed or by the explicit request
 NoSilentUpgrade ==
     [][(mode # "r+" /\ mode' = "r+") => (Explicit(last') \/ (last'.act = "Open" /\ last'.args.m = "r+"))]_vars
+\* ... not even transiently inside a step
+WritableOpensAreExplicit ==
+    [][last'.wopen => (Explicit(last') \/ (last'.act = "Open" /\ last'.args.m = "r+"))]_vars
 \* the file only ever changes through a writable handle
 ChangeNeedsWritable == [][fileVersion' # fileVersion => mode = "r+"]_vars
 
